@@ -1,0 +1,40 @@
+//go:build verif
+
+// Contracts of package wallet/client for the govc verifier (/verif): the
+// observation point of the unlinkability property (C08) - what reaches
+// json.Marshal here is what goes on the wire. Comment-only file, compiled only
+// with the build tag `verif`.
+package client
+
+// The request types, field by field: none but Proof can carry a secret or a
+// DLEQ proof, and only the swap and melt requests contain proofs. A new field
+// in any of them fails the shape obligation and has to be looked at.
+//@ struct nut03.PostSwapRequest [C08] Inputs Outputs
+//@ struct nut05.PostMeltBolt11Request [C08] Quote Inputs Outputs
+//@ struct nut04.PostMintBolt11Request [C08] Quote Outputs Signature
+//@ struct nut04.PostMintQuoteBolt11Request [C08] Amount Unit Pubkey
+//@ struct nut05.PostMeltQuoteBolt11Request [C08] Request Unit Options
+//@ struct nut05.MppOption [C08] AmountMsat
+//@ struct nut07.PostCheckStateRequest [C08] Ys
+//@ struct nut09.PostRestoreRequest [C08] Outputs
+//@ struct cashu.BlindedMessage [C08] Amount B_ Id Witness
+//@ struct cashu.Proof [C08] Amount Id Secret C Witness DLEQ
+//@ struct cashu.DLEQProof [C08] E S R
+
+// a copy of the proofs without their DLEQ proofs; everything else unchanged
+//@ func inputsWithoutDLEQ
+//@   tags C08
+//@   safety C06 C08
+//@   fresh
+//@   ensures @len [C08] len(result) == len(proofs)
+//@   ensures @stripped [C08] forall i :: 0 <= i && i < len(proofs) ==> result[i].DLEQ == nil && result[i].Amount == proofs[i].Amount && result[i].Id == proofs[i].Id && result[i].Secret == proofs[i].Secret && result[i].C == proofs[i].C && result[i].Witness == proofs[i].Witness
+//@   loop range(proofs) invariant 0 <= i && i <= len(proofs) && len(inputs) == len(proofs) && (forall j :: 0 <= j && j < i ==> inputs[j].DLEQ == nil && inputs[j].Amount == proofs[j].Amount && inputs[j].Id == proofs[j].Id && inputs[j].Secret == proofs[j].Secret && inputs[j].C == proofs[j].C && inputs[j].Witness == proofs[j].Witness)
+
+// what is marshalled (= sent) carries no DLEQ proof on any input
+//@ func PostSwap
+//@   tags C08
+//@   calls json.Marshal asserts @nodleq [C08] typeis(v, nut03.PostSwapRequest) && (forall i :: 0 <= i && i < len(unbox(v, nut03.PostSwapRequest).Inputs) ==> unbox(v, nut03.PostSwapRequest).Inputs[i].DLEQ == nil)
+
+//@ func PostMeltBolt11
+//@   tags C08
+//@   calls json.Marshal asserts @nodleq [C08] typeis(v, nut05.PostMeltBolt11Request) && (forall i :: 0 <= i && i < len(unbox(v, nut05.PostMeltBolt11Request).Inputs) ==> unbox(v, nut05.PostMeltBolt11Request).Inputs[i].DLEQ == nil)
